@@ -140,10 +140,22 @@ def static_check(ctx, case, r, tr, run, mode, what_prefix):
         if bad:
             n += 1
             ctx.finding(attrs_of(case, "static-metadata", "traced"), f"{what_prefix}: {bad}", replay_of(case, r, mode))
-    # declared graph outputs
-    names = list(gout)
-    for name, g in gout.items():
-        pass
+    # declared graph outputs: element type and every integer dimension must match run time
+    prefixes = ["out"] if len(vals) == 1 and "out" in gout or any(k.startswith("out_") for k in gout) and len(vals) == 1 else [f"out{i}" for i in range(len(vals))]
+    for pfx, v in zip(prefixes, vals):
+        if "shape" not in v:
+            continue
+        for name, g in gout.items():
+            if name == pfx or (name.startswith(pfx + "_") and name[len(pfx) + 1:] in ("values", "null")):
+                want_elem = "bool" if name.endswith("_null") else ops.base(v["dtype"])
+                bad = None
+                if ONNX_ELEM.get(g["elem"]) != want_elem:
+                    bad = f"graph output {name} declares element type {ONNX_ELEM.get(g['elem'])}, run time {want_elem}"
+                elif g["dims"] is not None and (len(g["dims"]) != len(v["shape"]) or any(isinstance(a, int) and a != b for a, b in zip(g["dims"], v["shape"]))):
+                    bad = f"graph output {name} declares dims {g['dims']}, run-time shape {v['shape']}"
+                if bad:
+                    n += 1
+                    ctx.finding(attrs_of(case, "static-metadata", "traced"), f"{what_prefix}: {bad}", replay_of(case, r, mode))
     return n
 
 
